@@ -3,6 +3,7 @@
 Run by checks/c20.py:sub_boot_fuzz in a child process (atheris.Fuzz() never returns, libFuzzer calls exit()):
     python fuzz/c20_boot_fuzz.py -runs=N -seed=S <writable corpus dir>
 Env: C20_FUZZ_OUT   directory receiving stats.json (coverage of the generator) and failure.json (first violation)
+     C20_FUZZ_KNOWN comma list of finding ids listed as known (their failures are counted, not reported)
 The input's first byte selects world / file name, the rest is planted verbatim as the only file of the snapshot
 directory; the oracle is checks.c20.check_bootfile (the one the enumerated and Hypothesis sub-checks use).
 Exit code 77 = violation found (failure.json written).
@@ -20,14 +21,18 @@ from checks.c20 import fuzz_case, check_bootfile  # noqa: E402
 from harness.runner import Violation, digest, jsonable  # noqa: E402
 
 OUT = os.environ.get("C20_FUZZ_OUT") or "."
-STATS = {"execs": 0, "labels": {}, "nontrivial": []}
+KNOWN = set(filter(None, (os.environ.get("C20_FUZZ_KNOWN") or "").split(",")))
+STATS = {"execs": 0, "labels": {}, "nontrivial": [], "excluded": {}}
 _NT = set()
 
 
 class _Rec:
-    known = {}
+    known = KNOWN
 
     def is_known(self, fid):
+        if fid in KNOWN:
+            STATS["excluded"][fid] = STATS["excluded"].get(fid, 0) + 1
+            return True
         return False
 
     def case(self, nontrivial=False, dig=None, labels=(), sample=None, n=1):
